@@ -299,6 +299,34 @@ def st_nullable_lead_pattern(draw):
 
 
 @st.composite
+def st_follow_cycle(draw):
+    """LL(1) grammars whose FOLLOW dependencies form a cycle through two or three different symbols (mutual tail
+    recursion: N1 -> a N2 | empty ; N2 -> b N1 | empty) entered from outside at one or two members: every member of the
+    cycle needs the complete FOLLOW set, whatever the order (names, declaration) in which the symbols are visited"""
+    ts = draw(st.permutations([k for k in gk.TERMINAL_KINDS if not k.startswith("KW_")]))[:7]
+    p, q, x, y = ts[:4]
+    n = draw(st.integers(2, 3))
+    cyc = ["N%d" % (i + 1) for i in range(n)]
+    prods = {}
+    for i, a in enumerate(cyc):
+        alts = [[ts[4 + i], cyc[(i + 1) % n]], []]
+        if draw(st.booleans()):
+            alts.reverse()
+        prods[a] = alts
+    entry = draw(st.sampled_from(cyc))
+    s_alts = [[p, entry] + ([x] if draw(st.booleans()) else [])]
+    if draw(st.booleans()):
+        other = draw(st.sampled_from(cyc))
+        s_alts.append([q, other, y])
+    if draw(st.booleans()):
+        s_alts.reverse()
+    prods["N0"] = s_alts
+    order = draw(st.permutations(sorted(prods)))
+    prods = {k: prods[k] for k in order}
+    return {"prods": prods, "start": "N0", "terms": list(ts[:4 + n])}
+
+
+@st.composite
 def st_follow_chain(draw):
     """LL(1) grammars whose FOLLOW sets need several propagation steps: N0 -> N1 x ; N1 -> t1 N2 ; ... ; Nk -> tk | empty"""
     ts = draw(st.permutations([k for k in gk.TERMINAL_KINDS if not k.startswith("KW_")]))[:5]
@@ -322,7 +350,7 @@ def st_case(draw):
     if dom == "A":
         g = draw(st_ll1_grammar())
     elif dom == "F":
-        g = draw(st.sampled_from([st_follow_pattern, st_unit_nullable_pattern, st_nullable_lead_pattern]))
+        g = draw(st.sampled_from([st_follow_pattern, st_unit_nullable_pattern, st_nullable_lead_pattern, st_follow_cycle]))
         g = draw(g())
     elif dom == "G":
         g = draw(st_follow_chain())
